@@ -5,6 +5,7 @@ func init() {
 		ID:    "C12",
 		Title: "Go data passed to a render is visible in the template with the same structure",
 		Rules: []string{
+			"R-SCOPE: the data map is bound through Env.Set and nothing else writes a scope's store",
 			"R-KINDS: NativeToObject has a case for each of the 14 scalar Go types and nil, mapping to the object kind of C12 with the value as payload; reflect kinds Struct, Slice, Map, Pointer are handled; every other kind yields nil; map keys are used only after the String-kind test; struct fields only under IsExported; no reflect setter in the library; property lookup tries the exact key then the upper-cased first letter and ends in an error",
 			"R-NILOBJ: a nil conversion result is checked at every nesting level; Elem().Interface() only after IsNil()",
 			"R-SHARED: no write reaches the caller's data map from any render entry point",
@@ -13,6 +14,7 @@ func init() {
 		NotDecided:  "TODO",
 		Assumptions: trustedBase,
 		Run: func(m *Model, s *Sink) {
+			m.RunScope(s, "R-SCOPE") // data is bound through Env.Set: nothing else writes a scope's store (aliases, reserved names)
 			m.RunKinds(s, "R-KINDS")
 			r := m.Roots()
 			var objFns = m.reachableFns(r.Render)
